@@ -156,6 +156,26 @@ def run(chk, replay=None):
                 else:
                     add_tails('poisson', n, float(r.quantile[0]), float(r.quantile[1]), {'mean': mean, 'scale': factor, 'dtype': dtype})
             chk.nontrivial('intscale|%s|%s' % (dtype, factor))
+    # array scale factors (one per cell, one per magnitude bin, one per bin): the total is the sum of the scaled rates
+    base = numpy.array([[12.0, 3.0], [20.0, 1.0], [4.0, 0.5]])
+    for tag, factor in (('per-cell', numpy.array([[0.5], [2.0], [0.25]])), ('per-magnitude', numpy.array([[0.5, 4.0]])),
+                        ('per-bin', numpy.array([[1.0, 2.0], [0.5, 0.0], [4.0, 8.0]]))):
+        fca = B.forecast(base)
+        fca.scale(factor)
+        mean = float((base * factor).sum())
+        got_total = guarded(lambda: fca.event_count)
+        chk.count()
+        if isinstance(got_total, Raised) or numpy.ndim(got_total) != 0 or abs(float(got_total) - mean) > 1e-12 * mean:
+            chk.violation('poisson:scaled total of a forecast with an array scale factor', {'factor': tag, 'got': repr(got_total), 'expected': mean})
+            continue
+        for n in (0, int(mean), int(mean) + 9):
+            r = guarded(pe.number_test, fca, catalog_with(n))
+            chk.count()
+            if isinstance(r, Raised) or numpy.ndim(r.quantile[0]) != 0:
+                chk.violation('poisson:raised', {'factor': tag, 'n': n, 'err': repr(r) if isinstance(r, Raised) else 'quantile is not a pair of numbers'})
+            else:
+                add_tails('poisson', n, float(r.quantile[0]), float(r.quantile[1]), {'mean': mean, 'scale': tag, 'dtype': 'float64'})
+        chk.nontrivial('arrayscale|%s' % tag)
     # the same forecast object evaluated, rescaled and evaluated again: the law must follow the current total
     for total in (0.5, 6.0, 250.0):
         for n in (0, 3, 9):
